@@ -594,8 +594,10 @@ impl Cursor<'_> {
                 return (true, false);
             }
         }
+        // The version number must be followed by whitespace, `;`, a comment, or the end of
+        // input. (A missing `;` is reported by the parser.)
         let c = self.first();
-        if c != ';' && !is_whitespace(c) {
+        if c != ';' && c != '/' && !is_whitespace(c) && !self.is_eof() {
             return (false, false);
         }
         (true, true)
